@@ -1,0 +1,28 @@
+//go:build verif
+
+// Verification hooks (build tag `verif` only). Add-only; no behaviour change.
+
+package task
+
+import (
+	"github.com/AliceO2Group/Control/common"
+	"github.com/AliceO2Group/Control/common/gera"
+	"github.com/AliceO2Group/Control/core/task/taskclass"
+)
+
+// NewTaskForVerif builds a Task the way the manager does after a launch, without Mesos:
+// name/ids/host given, class fixed, no parent yet (use SetParent).
+func NewTaskForVerif(name, taskId, hostname string, class *taskclass.Class) *Task {
+	return &Task{
+		name:         name,
+		className:    class.Identifier.String(),
+		taskId:       taskId,
+		executorId:   "exec-" + taskId,
+		agentId:      "agent-" + hostname,
+		offerId:      "offer-" + taskId,
+		hostname:     hostname,
+		properties:   gera.MakeMap[string, string](),
+		GetTaskClass: func() *taskclass.Class { return class },
+		commandInfo:  &common.TaskCommandInfo{},
+	}
+}
